@@ -68,7 +68,7 @@ StartOutcome(s, x) ==
 StartNext(s, x, o) ==
   IF o.t = "msg"
   THEN [s EXCEPT !.started = TRUE, !.gaveMsg = TRUE, !.hasx = TRUE, !.x = x,
-                 !.out = OutBytes(s.cls, s.ps, s.pw, x)]
+                 !.out = Tail(o.v)]                     \* = OutBytes(s.cls, s.ps, s.pw, x)
   ELSE s
 
 (* the side byte check of finish()  (C06)                                    *)
